@@ -319,6 +319,7 @@ def tagged_family(tier):
                     continue
                 closed_all = all(k != "struct_open" for k in kinds)
                 sh = L("%s[%s](%s)" % (tagging, ",".join(kinds), lid), {"oneOf": vs}, ff=leaf["ff"], enf=leaf["enf"] and closed_all and tagging != "unt")
+                sh["fam"] = True
                 sh["tg"] = {"tg": tagging, "has_unit": "unit" in kinds, "has_open": "struct_open" in kinds, "has_closed": "struct_closed" in kinds,
                             "has_other": any(k in ("newtype", "tuple") for k in kinds)}
                 out.append(sh)
@@ -364,13 +365,13 @@ def member_family(tier):
             if m is not None:
                 specs.append((t, st, m))
     for (t, st, m) in specs:
-        out.append(L("member[%s:%s]" % (t, st), obj({"a": m, "z": INT}, ["a"] if st == "req" else []), ff=t not in ("set", "number"), enf=False))
+        out.append(L("member[%s:%s]" % (t, st), obj({"a": m, "z": INT}, ["a"] if st == "req" else []), ff=t not in ("set", "number"), enf=False, fam=True))
     if tier != "quick":
         core = [x for x in specs if x[0] in ("string", "str_max2", "vec", "map", "nullable", "enum_ab", "inline_struct", "unit")]
         for (t1, s1, m1) in core:
             for (t2, s2, m2) in core:
                 req = [n for n, st in (("a", s1), ("b", s2)) if st == "req"]
-                out.append(L("member2[%s:%s,%s:%s]" % (t1, s1, t2, s2), obj({"a": m1, "b": m2}, req), ff=True, enf=False))
+                out.append(L("member2[%s:%s,%s:%s]" % (t1, s1, t2, s2), obj({"a": m1, "b": m2}, req), ff=True, enf=False, fam=True))
     return out
 
 
@@ -412,8 +413,11 @@ def place(shape, ctx):
 def space_depth2(tier, contexts=None):
     ctxs = contexts or (QUICK_CONTEXTS if tier == "quick" else [c["id"] for c in CONTEXTS])
     out = []
+    fam_ctx = ["def", "member_opt"] if tier == "quick" else ["def", "member_opt", "vec_item", "ext_payload", "root"]
     for sh in shapes_depth2(tier):
         for cid in ctxs:
+            if sh.get("fam") and cid not in fam_ctx:
+                continue   # the systematic families are large: they are placed in a covering subset of the contexts
             p = place(sh, CONTEXT[cid])
             if p is not None:
                 out.append(p)
